@@ -656,6 +656,7 @@ pub fn replay(_ctx: &Ctx, sub: &str, input: &serde_json::Value) -> Result<(), Fa
     }
     match sub {
         "havoc-histories-then-probe" => check_history(&serde_json::from_value(input["value"].clone()).map_err(|e| fail!("bad-replay", "{e}"))?, &mut st),
+        "tls-hello-after-complete-records-same-connection" => check_same_flow(&serde_json::from_value(input["value"].clone()).map_err(|e| fail!("bad-replay", "{e}"))?, &mut st),
         "stream-histories-then-probe" => stream_probe(&serde_json::from_value::<Vec<Vec<u8>>>(input["value"].clone()).map_err(|e| fail!("bad-replay", "{e}"))?),
         _ => Err(fail!("bad-replay", "sub {sub}: re-run the check with the same VERIF_SEED (the failing input is printed in the detail)")),
     }
@@ -689,4 +690,101 @@ pub fn fuzz_stream(data: &[u8]) {
 }
 pub fn fuzz_text(s: &str) {
     text_entry_points(s).expect("text entry point panicked");
+}
+
+// ------------------------------------------------------------------------------------------------
+// TLS: complete records of any kind, then a well-formed ClientHello in the next segment of the SAME connection
+// ------------------------------------------------------------------------------------------------
+#[derive(Clone, Debug, serde::Serialize, serde::Deserialize, Hash)]
+pub struct SameFlowCase {
+    pub hello: crate::gen::tls::Hello,
+    /// earlier segments, each holding complete TLS records only: (kind selector, mutation offsets / values)
+    pub earlier: Vec<(u8, Vec<(u16, u8)>)>,
+    pub probe: crate::gen::tls::Hello,
+    pub v4: bool,
+}
+
+fn same_flow_segment(c: &SameFlowCase, kind: u8, muts: &[(u16, u8)]) -> Vec<u8> {
+    let others = crate::props::c08::non_client_hello_records();
+    match kind % 4 {
+        // a ClientHello record whose body is corrupted while its record length stays right (complete, usually unparsable)
+        0 | 1 => {
+            let mut r = c.hello.record();
+            let n = r.len();
+            for (off, val) in muts {
+                if n > 9 {
+                    let i = 9 + crate::engine::idx(*off, n - 9);
+                    r[i] = *val;
+                }
+            }
+            r
+        }
+        // a handshake record of type ClientHello with an arbitrary body
+        2 => {
+            let body: Vec<u8> = muts.iter().flat_map(|(a, b)| [(*a >> 8) as u8, *a as u8, *b]).collect();
+            let mut hs = vec![0x01, 0, (body.len() >> 8) as u8, body.len() as u8];
+            hs.extend(body);
+            let mut r = vec![0x16, 0x03, 0x01, (hs.len() >> 8) as u8, hs.len() as u8];
+            r.extend(hs);
+            r
+        }
+        // a complete non-ClientHello HANDSHAKE record (after a record of another content type the reader stays silent for the
+        // rest of the stream - C08 - so "a following well-formed input" is only defined behind handshake records)
+        _ => {
+            let hs: Vec<&(&'static str, Vec<u8>)> = others.iter().filter(|(_, r)| r[0] == 0x16).collect();
+            hs[muts.first().map(|m| m.0 as usize).unwrap_or(0) % hs.len()].1.clone()
+        }
+    }
+}
+
+pub fn check_same_flow(c: &SameFlowCase, st: &mut Stats) -> Result<(), Fail> {
+    use crate::props::c08::{mk_ip, seg_frames, tls_feed};
+    if !c.hello.fits() || !c.probe.fits() || c.hello.record().len() > 9000 || c.probe.record().len() > 9000 {
+        st.discards += 1;
+        return Ok(());
+    }
+    let ip = mk_ip(c.v4);
+    let probe = c.probe.record();
+    // reference: the probe alone on a fresh instance
+    let mut fresh = ttl_cache::TtlCache::new(8);
+    let alone: Vec<String> = seg_frames(&ip, 40002, 443, 9000, &[probe.clone()]).iter().filter_map(|f| tls_feed(f, &mut fresh).ok().flatten()).map(|o| crate::drive::tls_out_str(&o)).collect();
+    if alone.len() != 1 {
+        return Ok(()); // the probe itself is not reported (e.g. > 2^14 fragment): nothing to compare
+    }
+    let mut segs: Vec<Vec<u8>> = c.earlier.iter().map(|(k, m)| same_flow_segment(c, *k, m)).collect();
+    let unparsable = segs.iter().filter(|s| s[0] == 0x16 && !matches!(huginn_net_tls::tls_process::parse_tls_client_hello(s), Ok(Some(_)))).count();
+    if unparsable > 0 {
+        st.nontrivial(c);
+        st.class("earlier-segment:complete-handshake-record-that-is-not-a-parsable-hello");
+    }
+    segs.push(probe);
+    let frames = seg_frames(&ip, 40002, 443, 77, &segs);
+    let mut flows = ttl_cache::TtlCache::new(8);
+    let mut last: Option<String> = None;
+    for (i, f) in frames.iter().enumerate() {
+        let r = crate::engine::catch(|| tls_feed(f, &mut flows)).map_err(|p| Fail::new(crate::engine::panic_key(&p), p))?;
+        if i + 1 == frames.len() {
+            last = r.ok().flatten().map(|o| crate::drive::tls_out_str(&o));
+        }
+    }
+    if last.as_ref() != Some(&alone[0]) {
+        return Err(fail!("tls:well-formed-hello-after-complete-records-not-analysed-as-by-a-fresh-instance", "earlier segments {:?}
+expected {}
+got      {:?}", segs[..segs.len() - 1].iter().map(|s| crate::engine::truncate(&hex(s), 80)).collect::<Vec<_>>(), alone[0], last));
+    }
+    Ok(())
+}
+
+pub fn run_same_flow(ctx: &Ctx) {
+    let n = ctx.tier.pick(40_000, 1_000_000);
+    ctx.run_prop(
+        "tls-hello-after-complete-records-same-connection",
+        "1..3 earlier segments on one connection, each a COMPLETE TLS record (a ClientHello record with 1..6 corrupted body bytes and an intact record length, a ClientHello-type handshake record with an arbitrary body, or a non-ClientHello handshake record), then a well-formed ClientHello in the next segment of the same connection; oracle: that hello is analysed exactly as by a fresh instance; non-trivial: an earlier segment is a complete handshake record that is not a parsable ClientHello",
+        n,
+        || (crate::gen::tls::hello(), proptest::collection::vec((any::<u8>(), proptest::collection::vec((any::<u16>(), any::<u8>()), 1..7)), 1..4), crate::gen::tls::hello(), any::<bool>()).prop_map(|(hello, earlier, probe, v4)| SameFlowCase { hello, earlier, probe, v4 }),
+        |c: &SameFlowCase, st: &mut Stats| {
+            st.sample(|| json!({"earlier_kinds": c.earlier.iter().map(|e| e.0 % 4).collect::<Vec<_>>(), "v4": c.v4}));
+            check_same_flow(c, st)
+        },
+    );
 }
